@@ -39,7 +39,7 @@ def signatures():
     out = []
     for n in range(0, 5):
         for k in range(0, min(3, n) + 1):
-            for j in range(3 if k else 1):
+            for j in range(4 if k else 1):
                 for mention in itertools.product([False, True], repeat=3):
                     out.append((n, k, j, mention))
     return out
@@ -54,7 +54,12 @@ def make_macro(sig):
         di = i - (n - k)
         if di >= 0:
             kind = (di + j) % 3
-            if kind == 1 and i > 0:
+            if j == 3:
+                # the default mentions the parameter's OWN name; an outer variable of that
+                # name exists.  Which binding is meant is undocumented: both readings are
+                # accepted (see compare), but nothing else - in particular no internal object.
+                d = N(name) if di == 0 else C(20 + di)
+            elif kind == 1 and i > 0:
                 d = ["bin", "+", N("p1"), C(100)]  # earlier parameter, evaluated at call time
             elif kind == 2:
                 d = N("ov")                         # outer variable at call time
@@ -114,7 +119,7 @@ def call_ast(sig, shape):
     if star == 1:
         args.append(["star", ["list", [C(40), C(41)]]])
     un = unknown_name(sig)
-    kw = [[un if name == "zz" else name, C(30 + i)] for i, name in enumerate(kws)]
+    kw = [[un if name == "zz" else name, C(None) if (i + npos) % 3 == 2 else C(30 + i)] for i, name in enumerate(kws)]
     if star == 2:
         kw.append(["**", ["dict", [[C(f"p{n}"), C(50)]]]])
     if star == 3:
@@ -132,7 +137,7 @@ def py_args(sig, shape):
     if star == 1:
         args += [40, 41]
     un = unknown_name(sig)
-    kw = {(un if name == "zz" else name): 30 + i for i, name in enumerate(kws)}
+    kw = {(un if name == "zz" else name): (None if (i + npos) % 3 == 2 else 30 + i) for i, name in enumerate(kws)}
     if star == 2:
         kw[f"p{n}"] = 50
     if star == 3:
@@ -140,8 +145,17 @@ def py_args(sig, shape):
     return args, kw
 
 
-def prelude(sig):
-    return [["set", "ov", C(77)], make_macro(sig), ["set", "ov", C(78)]]
+def own_default_param(sig):
+    n, k, j, _ = sig
+    return f"p{n - k + 1}" if (k and j == 3) else None
+
+
+def prelude(sig, own_reading="outer"):
+    pre = [["set", "ov", C(77)]]
+    own = own_default_param(sig)
+    if own:
+        pre.append(["set", own, C(66)])
+    return pre + [make_macro(sig), ["set", "ov", C(78)]]
 
 
 def check_sig(ctx, sig, shapes, envs):
@@ -159,6 +173,18 @@ def check_sig(ctx, sig, shapes, envs):
         one = pre + [call_ast(sig, sh)]
         it = M.Interp({"t": one})
         mo = util.capture(lambda: it.render("t", {}))
+        alts = [mo]
+        own = own_default_param(sig)
+        if own:
+            # second accepted reading: the name inside the default is the (still unset) parameter
+            mac = make_macro(sig)
+            mac[2] = [[pn, (["name", "u_n_d_e_f"] if pn == own else d)] for pn, d in mac[2]]
+            one2 = [st for st in pre if st[0] != "macro"]
+            one2 = [x for x in one2]
+            idx = [i for i, st in enumerate(pre) if st[0] == "macro"][0]
+            alt_prog = pre[:idx] + [mac] + pre[idx + 1:] + [call_ast(sig, sh)]
+            it2 = M.Interp({"t": alt_prog})
+            alts.append(util.capture(lambda: it2.render("t", {})))
         if not mo.ok:
             if util.model_exc_name(mo.exc) == "TypeError":
                 ctx.count("expect_typeerror")
@@ -171,7 +197,7 @@ def check_sig(ctx, sig, shapes, envs):
             eo = util.capture(lambda: t.render(sel=i))
             ctx.ev()
             ctx.count("template_side")
-            bad = compare(mo, eo)
+            bad = compare_any(alts, eo)
             if bad:
                 ctx.violation(classify(sig, sh, mo, eo), f"{bad} | {jast.ps(one)!r} env={en}", case)
         # Python side: only shapes expressible without a call block
@@ -180,7 +206,7 @@ def check_sig(ctx, sig, shapes, envs):
             eo = util.capture(lambda: str(pymod.m(*a, **kw)))
             ctx.ev()
             ctx.count("python_side")
-            bad = compare(mo, eo)
+            bad = compare_any(alts, eo)
             if bad:
                 ctx.violation("python:" + classify(sig, sh, mo, eo),
                               f"{bad} | module.m(*{a}, **{kw}) for {jast.ps(pre)!r}", case)
@@ -195,6 +221,11 @@ def compare(mo, eo):
     return f"engine {eo!r} / spec {mo!r}"
 
 
+def compare_any(alts, eo):
+    res = [compare(a, eo) for a in alts]
+    return None if any(r is None for r in res) else res[0]
+
+
 def classify(sig, sh, mo, eo):
     n, k, j, (mv, mk, mc) = sig
     npos, kws, star, cb = sh
@@ -206,7 +237,7 @@ def classify(sig, sh, mo, eo):
     if any(x != "zz" and int(x[1:]) <= npos for x in kws):
         parts.append("keyword-duplicates-positional")
     if k:
-        parts.append("defaults")
+        parts.append("defaults" + (":own-name" if j == 3 else ""))
     if cb:
         parts.append("callblock" + ("+caller" if mc else ""))
     if star:
